@@ -171,6 +171,23 @@ BOUNDED = [
      "bound": "%d listed request sequences mixing failing evaluations with :skip / :replace / :resume / :abort / :forget_local: the process must not panic, every request must be answered, and the last request (40 + 2) must be answered with 42" % len(COMMAND_CORPUS),
      "expect": {}},
 ]
+def _up_to(src, at):
+    return {"method": "eval_up_to", "src": src, "offset": src.index(at)}
+
+
+_F1, _F2, _F3 = "fun add(x: Int) { x + 1 }", "fun add(x: Int, y: Int) { x + y }", "fun add() { 1 }"
+_M1, _M2 = "method inc(this: Int) { this + 1 }", "method inc(this: Int, by: Int, again: Int) { this + by + again }"
+EVAL_UP_TO_SEQUENCES = [
+    # a definition called with one arity, then eval-up-to on parameters of a redefinition with more / fewer parameters
+    [_F1, "add(10)", _up_to(_F1, "x: Int"), _up_to(_F2, "y: Int"), _up_to(_F2, "x + y"), _up_to(_F3, "1 }"), "40 + 2"],
+    [_M1, "1.inc()", _up_to(_M1, "this: Int"), _up_to(_M2, "by: Int"), _up_to(_M2, "again: Int"), _up_to(_M2, "this + by"), "40 + 2"],
+    # eval-up-to before anything was called, on a never-defined function, in a body that fails, at offsets outside the text
+    [_up_to(_F2, "y: Int"), _up_to("fun g(a) { nosuch(a) }", "nosuch"), {"method": "eval_up_to", "src": _F1, "offset": 4000}, {"method": "eval_up_to", "src": "", "offset": 0}, "40 + 2"],
+    [_F2, "add(1, 2)", _up_to(_F1, "x: Int"), _up_to(_F1, "x + 1"), "add(1, 2)", "40 + 2"],
+]
+BOUNDED.append({"name": "eval_up_to_sequences", "kind": "session-alive", "props": ["C09"], "input": EVAL_UP_TO_SEQUENCES, "n_inputs": len(EVAL_UP_TO_SEQUENCES),
+                "bound": "%d request sequences with eval_up_to requests on parameters and expressions of functions / methods that were called with another number of arguments, never called, or not defined: every request answered, no panic, the last request (40 + 2) answered with 42" % len(EVAL_UP_TO_SEQUENCES),
+                "expect": {}})
 BOUNDED.append({"name": "moderately_nested_requests", "kind": "session-alive", "props": ["C09"], "n_inputs": 3,
                 "input": [["(" * 20 + "1" + ")" * 20, "40 + 2"], ["[" * 20 + "]" * 20, "40 + 2"], [" + ".join("1" for _ in range(40)), "40 + 2"]],
                 "bound": "3 request sequences whose first request nests 20 brackets or chains 40 operands: answered, and the session answers 40 + 2 afterwards", "expect": {}})
